@@ -3,7 +3,7 @@
    MutableNodeRefList (addNodeInDocOrder with its three search strategies, addNodesInDocOrder, Union). *)
 From Coq Require Import List Arith Bool Lia.
 Import ListNotations.
-Require Import XV.NodeListDefs XV.DocOrderModel XV.NodeListModel.
+Require Import XV.NodeListDefs XV.DocOrderModel XV.NodeListModel XV.NodeListFlagModel.
 
 (* ---- 1. structural document order = pre-order index order, for every tree and every pair of nodes
         (the code asserts that neither node is the document node; the equality even holds when one is) *)
@@ -12,6 +12,17 @@ Theorem struct_order_eq_index_order : forall t n1 n2,
   isNodeAfter_struct t n1 n2 = (index t n2 <? index t n1).
 Proof. exact struct_order_eq_index_order_lemma. Qed.
 Print Assumptions struct_order_eq_index_order.
+
+(* "identical whether it is derived from stored node indexes or from tree structure": DOMServices::isNodeAfter
+   gives the same answer on an indexed and on a non-indexed representation of the same tree *)
+Theorem order_representation_independent : forall t n1 n2,
+  valid t n1 = true -> valid t n2 = true -> (n1 <> [] \/ n2 <> []) ->
+  isNodeAfter [(t, true)] (0, n1) (0, n2) = isNodeAfter [(t, false)] (0, n1) (0, n2).
+Proof.
+  intros t n1 n2 H1 H2 Hne. unfold isNodeAfter, isIndexed, getIndex, isIndexed, windexed, wtree, key. simpl.
+  rewrite struct_order_eq_index_order_lemma by assumption. reflexivity.
+Qed.
+Print Assumptions order_representation_independent.
 
 (* the pre-order index is injective on the nodes of a tree and below the size of the tree *)
 Theorem index_is_injective : forall t n1 n2,
@@ -264,6 +275,11 @@ Proof.
   rewrite rev_involutive. assumption.
 Qed.
 Print Assumptions reverse_keeps_flag_honest.
+
+(* ... and so does setNode(i, 0) + clearNulls() (the flag is dropped when the list becomes empty) *)
+Theorem nullClear_keeps_flag_honest : forall W l ps, honest W l = true -> honest W (nl_nullClear l ps) = true.
+Proof. exact nullClear_keeps_flag_honest_lemma. Qed.
+Print Assumptions nullClear_keeps_flag_honest.
 
 (* ---- non-vacuity: the hypotheses are satisfiable, on an indexed and on a non-indexed document *)
 Definition T1 : tree := Node 0 [Node 2 [Node 0 []; Node 1 [Node 0 []]; Node 0 []]].
